@@ -32,7 +32,7 @@ ASSUMPTIONS = ["hash seeds are sampled (2^32 values), not enumerated",
                "error messages of rejected forms are compared too (same bytes), which is slightly more than the statement demands of results"]
 BUDGET = {"quick": 1100, "thorough": 40000}
 REQUIRED_LABELS = ["kind:seeds", "kind:history", "kind:threads", "kind:stress", "history:repeat-after-other", "history:regen", "threads:switches>=3",
-                   "seeds:accepted", "feature:no-headers", "feature:or-other-translated", "feature:namespaces"]
+                   "seeds:accepted", "feature:no-headers", "feature:or-other-translated", "feature:namespaces", "feature:single-colon-headers"]
 
 REPO = os.environ.get("VERIF_REPO", "/repo")
 HERE = os.path.dirname(os.path.dirname(os.path.dirname(os.path.abspath(__file__))))
@@ -45,6 +45,7 @@ PY = "/venv/bin/python"
 class Worker:
     def __init__(self, hashseed):
         self.hashseed = str(hashseed)
+        self.owner = os.getpid()
         self.tmp = tempfile.mkdtemp(prefix="vfc14_")
         env = {k: v for k, v in os.environ.items() if k != "PYXFORM_VERIF"}
         env.update(PYTHONHASHSEED=self.hashseed, TMPDIR=self.tmp, TEMP=self.tmp, TMP=self.tmp, PYTHONPATH=os.pathsep.join([REPO, HERE]),
@@ -55,12 +56,16 @@ class Worker:
     def ask(self, msg):
         self.p.stdin.write(json.dumps(msg) + "\n")
         self.p.stdin.flush()
-        line = self.p.stdout.readline()
-        if not line:
-            raise RuntimeError(f"worker (hash seed {self.hashseed}) died")
-        return json.loads(line)
+        while True:
+            line = self.p.stdout.readline()
+            if not line:
+                raise RuntimeError(f"worker (hash seed {self.hashseed}) died")
+            if line.startswith("@@VF "):     # anything else on stdout is not ours (e.g. a stray print in the code under test)
+                return json.loads(line[5:])
 
     def close(self):
+        if self.owner != os.getpid():
+            return
         try:
             self.p.stdin.close()
             self.p.wait(timeout=10)
@@ -70,11 +75,15 @@ class Worker:
 
 
 _POOL = []
+_OWNER = {}
 
 
 def pool():
     """the shard's long-lived workers (created on first use; they live for the whole shard so that state can accumulate)"""
+    if _POOL and _OWNER.get("pool") != os.getpid():
+        del _POOL[:]        # inherited through fork from the parent (regression replay): those pipes are not ours
     if not _POOL:
+        _OWNER["pool"] = os.getpid()
         base = (int(os.environ.get("VERIF_SEED", "1") or "1") * 7919 + os.getpid()) % 100000
         for hs in (0, 1, base + 2, base + 3):
             _POOL.append(Worker(hs))
@@ -90,7 +99,10 @@ def fresh_answer(job, cache):
     anything forks a pristine child for every request"""
     key = json.dumps(job, sort_keys=True)
     if key not in cache:
+        if _TEMPLATE and _OWNER.get("template") != os.getpid():
+            del _TEMPLATE[:]
         if not _TEMPLATE:
+            _OWNER["template"] = os.getpid()
             _TEMPLATE.append(Worker(0))
             atexit.register(lambda: [w.close() for w in _TEMPLATE])
         cache[key] = _TEMPLATE[0].ask(dict(job, op="fresh"))
@@ -134,6 +146,11 @@ def _form(draw, g_holder):
     with_headers = not g.p("_", 0.3)
     if not with_headers:
         feats.add("no-headers")
+    # header delimiter style: the same header text ('label:French (fr)') is split on ':' in a sheet without any '::' header and is an
+    # unknown column in a sheet that has one -- per sheet, whatever was converted before
+    if g.langs and g.p("_", 0.35):
+        form["colon_style"] = g.pick(["single", "mixed"])
+        feats.add("single-colon-headers")
     g_holder.append(g)
     return form, with_headers, sorted(feats)
 
@@ -174,9 +191,28 @@ def strategy(tier):
 # ------------------------------------------------------------------ oracle
 
 
+LANG_COLS = ("label", "hint", "guidance_hint", "constraint_message", "required_message", "image", "audio", "video", "big-image")
+
+
+def restyle(wb, style):
+    """rename translated headers of the survey sheet from 'col::lang' to 'col:lang' (style 'mixed' keeps every other '::' header)"""
+    rows = wb.get("survey") or []
+    heads = list(wb["survey_header"][0]) if wb.get("survey_header") else []
+    keys = {k for r in rows for k in r} | set(heads)
+    if style == "single" and any("::" in k and k.split("::")[0] not in LANG_COLS for k in keys):
+        return wb
+    ren = {k: k.replace("::", ":", 1) for k in keys if "::" in k and k.split("::")[0] in LANG_COLS and ":" not in k.split("::", 1)[1]}
+    wb["survey"] = [{ren.get(k, k): v for k, v in r.items()} for r in rows]
+    if heads:
+        wb["survey_header"] = [{ren.get(k, k): None for k in heads}]
+    return wb
+
+
 def mkjob(fd, pretty=False):
     form = fd["form"]
     wb = model.to_workbook_dict(form, with_headers=fd.get("with_headers", True))
+    if form.get("colon_style"):
+        wb = restyle(wb, form["colon_style"])
     args = {k: v for k, v in form.get("args", {}).items() if k in ("form_name", "default_language")}
     return {"wb": wb, "args": args, "pretty": bool(pretty)}
 
